@@ -16,6 +16,8 @@ mod gen;
 mod twin;
 
 use gen::{InputSpec, Program, Ty, Val};
+#[allow(unused_imports)]
+use gen::generate_with;
 use rten::{Model, ModelOptions, NodeId, RunErrorKind, RunOptions, ThreadPool, Value, ValueOrView};
 use rten_tensor::prelude::*;
 use rten_tensor::Tensor;
